@@ -150,6 +150,8 @@ pub struct Th {
     pub call_ops: usize,
     pub retrying: bool,
     pub solo_mark: Option<usize>,
+    /// the handle used by the current call has already given its token back
+    pub tokenless: bool,
     /// ops executed since the last observable change by any thread
     pub since: usize,
 }
@@ -203,6 +205,7 @@ pub struct St {
     pub tokens: HashMap<usize, usize>,
     /// tokens of handles that are inside their drop / unsubscribe call
     pub leaving: HashSet<usize>,
+    pub gptr_addr: usize,
 }
 
 pub struct Rt {
@@ -257,6 +260,7 @@ impl St {
             live_tokens: 0,
             tokens: HashMap::new(),
             leaving: HashSet::new(),
+            gptr_addr: 0,
         }
     }
 
@@ -348,6 +352,7 @@ impl Rt {
                 call_ops: 0,
                 retrying: false,
                 solo_mark: None,
+                tokenless: false,
                 since: 0,
             })
             .collect();
@@ -684,6 +689,11 @@ impl Rt {
             }
             _ => {}
         }
+        // epoch protocol: the published stream list may only be read by a handle that still owns its token
+        if addr != 0 && addr == st.gptr_addr && st.th[tid].tokenless && st.live_tokens > 0 {
+            st.th[tid].tokenless = false;
+            st.api.push(json!({"e":"tokenless","t":tid,"k":kind.name()}));
+        }
         // an op on memory that was already released is a use-after-free
         if matches!(kind, K::Shim(_)) && addr != 0 {
             let mut hit = None;
@@ -767,6 +777,12 @@ impl vh::Runtime for Rt {
             st.live_tokens -= 1;
             st.tokens.remove(&addr);
             st.leaving.remove(&addr);
+            // from here on the calling handle is no longer protected by the epoch protocol
+            if let Some(t) = TID.with(|c| c.get()) {
+                if t < st.th.len() {
+                    st.th[t].tokenless = true;
+                }
+            }
         }
     }
     fn on_alloc(&self, addr: usize, bytes: usize, ty: &'static str) {
